@@ -37,6 +37,7 @@ SIG_MEMORY = "clone-shares-memory-store"
 SIG_DISK = "clone-shares-on-disk-storage"
 SIG_INVAL = "clone-shares-invalidated-caches"
 SIG_INITIAL = "clone-differs-initially"
+SIG_ROUTE = "population-route-answers-with-another-simulation"
 
 
 # --------------------------------------------------------------------------------------
@@ -121,6 +122,21 @@ def ownership(orig, clone):
         return SIG_POP, "clone.persons is not clone.populations['person']"
     if clone.tracer is orig.tracer:
         return "clone-shares-tracer", "clone.tracer is the original's tracer"
+    return routes_own(clone, "clone") or routes_own(orig, "original")
+
+
+def routes_own(sim, who):
+    """every way of asking a simulation for a population (or an entity) answers with its own"""
+    for key, pop in sim.populations.items():
+        k = su.pop_index(key)
+        for r, text in (("g", f"get_population('{su.entity_plural(k)}')"), ("d", f"populations['{key}']"), ("a", f".{key}")):
+            got = su.route(sim, r, k)
+            if got is not pop or got.simulation is not sim:
+                return SIG_ROUTE, f"{who}.{text} is not the {who}'s own population"
+        if sim.get_entity(su.entity_plural(k)) is not pop.entity:
+            return SIG_ROUTE, f"{who}.get_entity('{su.entity_plural(k)}') is not the entity of its population"
+    if sim.persons.simulation is not sim:
+        return SIG_ROUTE, f"{who}.persons is bound to another simulation"
     return None
 
 
@@ -203,7 +219,7 @@ def execute(line: str):
             sim = sims[side]
             call = f"{sim_name(side)}.{text[1:]}"
             style = k * 5 + 3 * side + run.salt
-            touched_var = ev[1] if ev[0] in "skadgr" else None
+            touched_var = ev[1] if ev[0] in "skadgrqu" else None
             if ev[0] == "n":
                 before = snapshot(sim, vt)
                 new = sim.clone(debug=ev[2], trace=ev[1])
@@ -258,6 +274,10 @@ def execute(line: str):
                 r_alone = run.call(controls[side], ev, style)
                 lineages[side].append(("call", ev, style))
             parts.append(result + ";" + ";".join(su.observe(x, vt) for x in sims))
+            if verdict is not None:
+                continue
+            for j, x in enumerate(sims):
+                verdict = verdict or routes_own(x, sim_name(j))
             if verdict is not None:
                 continue
             bad = None
@@ -368,6 +388,8 @@ def fmt_op(op) -> str:
         return f"d:{op[1]}:{'*' if op[2] is None else op[2]}"
     if op[0] in "kag":
         return f"{op[0]}:{op[1]}:{op[2]}"
+    if op[0] in "qu":
+        return f"{op[0]}:{op[3]}:{op[4]}:{op[1]}:{op[2]}"
     if op[0] == "t":
         return f"t:{1 if op[1] else 0}"
     if op[0] == "n":
@@ -547,6 +569,13 @@ def gen_op(rng: random.Random, sysd, spec, tags, live=1):
     if r < 0.36:
         tags.append("unknown-variable")
         return rng.choice([("k", nv, M1), ("d", nv, M1), ("s", nv, M1, [1] * n), ("a", nv, Y18)])
+    if r < 0.43:
+        # a population asked of the simulation by one of the routes, then a calculation / a read through it
+        v = rng.randrange(nv)
+        ent = sysd[v][0] if rng.random() < 0.9 else rng.choice([0] + list(count))
+        rt = rng.choice("gggda" + ("p" if ent == 0 else "g"))
+        tags.append("route")
+        return (rng.choice("qqu"), v, own_period(rng, sysd[v][1]) if rng.random() < 0.93 else any_period(rng), rt, ent)
     if r < 0.5:
         v = rng.randrange(nv)
         q = rng.random()
@@ -567,7 +596,7 @@ def gen_op(rng: random.Random, sysd, spec, tags, live=1):
         else:
             p = any_period(rng)
         return ("a", v, p)
-    if r < 0.96:
+    if r < 0.95:
         return ("t", rng.random() < 0.6)
     return ("h", rng.randrange(nv))
 
@@ -648,7 +677,7 @@ MALFORMED = [
     "heap run 0:month:0:- 1/1:1:0:-:-/-/o0m1 - 00 ot:2", "heap run 0:month:0:- 1/1:1:0:4:-/-/o0m1 - 00 -",
     "heap run 0:month:0:-;1:month:0:0+1*0.mr4.s 1/1:1:0:-:-/-/o0m1 - 00 -", "heap run 0:month:0:0+1*0.nb2.s 1/1:1:0:-:-/-/o0m1 - 00 -",
     "heap run 0:month:0:- 1/-/-/o0m1 - 00 2k:0:eternity", "heap run 0:month:0:- 1/-/-/o2m1 - 00 -", "heap run 0:month~q:0:- 1/-/-/o0m1 - 00 -",
-    "heap run 0:month:0:- 1/1:1:0:-:0.0/-/o0m1 - 00 -", "heap run 0:month:0:- 1/-/-/o0m1 - 00 or:0:eternity:3:0:eternity",
+    "heap run 0:month:0:- 1/1:1:0:-:0.0/-/o0m1 - 00 -", "heap run 0:month:0:- 1/-/-/o0m1 - 00 or:0:eternity:3:0:eternity", "heap run 0:month:0:- 1/-/-/o0m1 - 00 oq:x:0:0:eternity",
 ]
 
 
@@ -752,6 +781,14 @@ def corpus():
             (1, ("r", 0, M2, 3, 1, M1)), (2, ("r", 0, M3, 0, 1, M1)), (1, ("a", 0, "month/2018,1,1/3")), (3, ("a", 1, "month/2018,1,1/2")),
             (2, ("s", 2, M1, [0, 1])), (0, ("d", 3, None)), (3, ("s", 4, ETERNITY, [17000, 0])), (1, ("k", 4, M1)), (2, ("g", 0, M1)),
             (0, ("k", 5, M1))], ("corpus", "chain")),
+        # seeded change C13-6 (a memo of get_population shared by clone and original): the original resolves the plural
+        # before cloning, the clone asks afterwards and calculates / reads through what it is given
+        mk([V(0, "month", 0, None), V(0, "month", 0, (1, [(1, 0, "s", "s")]))], S(2), [("q", 0, M1, "g", 0)], (False, False),
+           [(1, ("s", 0, M1, [5, 6])), (1, ("q", 1, M1, "g", 0)), (1, ("u", 0, M1, "g", 0)), (0, ("q", 1, M1, "g", 0))],
+           ("corpus", "routes")),
+        mk([V(0, "month", 0, None), V(1, "month", 0, (0, [(1, 0, "m", "s")]))], S(2, [(1, 1, [0, 0])]), [], (False, False),
+           [(1, ("s", 0, M1, [5, 6])), (1, ("q", 1, M1, "g", 1)), (0, ("s", 0, M1, [1, 1])), (0, ("q", 1, M1, "g", 1)),
+            (0, ("u", 1, M1, "a", 1)), (1, ("u", 1, M1, "d", 1))], ("corpus", "routes")),
         # opt_out_cache with a blacklisted formula, max_spiral_loops = 2, a dropped variable and typed inputs on disk
         mk([V(0, "month", 0, None), V(0, "month", 0, (1, [(1, 0, "s", "s"), (1, 0, "pa", "s")]), "f", True),
             V(0, "month", 0, (1, [(1, 2, "s", "l")])), V(0, "month", 2, None, "e"), V(0, "month", 1, (0, []))],
@@ -771,6 +808,8 @@ def corpus():
 
 
 PROP = Prop(
+    unclaimed_diffs_binding=True,   # the model transcribes the code outside the claim domain too (0 differences on every run):
+                                    # `claimed=False` silences the oracle only
     pid="C13",
     lean_targets=["OFCore.Props.C13"],
     driver="ofdrv_heap",
